@@ -20,7 +20,7 @@ BUDGETS = {'C18': (50, 1200, 40)}
 LEVELS = {'C18': 'exploration'}
 WALL_LIMIT = {('C18', 'quick'): 180, ('C18', 'thorough'): 180}
 SHRINK = {'C18': (45, 60)}
-PROBES = {'C18': web.PROBES['C18'] + ['crawl_level', 'crawl.robots_perpetual_5xx', 'crawl.robots_reset', 'crawl.robots_ok', 'crawl.perpetual_5xx', 'crawl.reset', 'crawl.refused', 'crawl.stall', 'crawl.redirect_loop',
+PROBES = {'C18': web.PROBES['C18'] + ['crawl_level', 'crawl.robots_perpetual_5xx', 'crawl.robots_reset', 'crawl.robots_ok', 'crawl.perpetual_5xx', 'crawl.reset', 'crawl.refused', 'crawl.stall', 'crawl.redirect_loop', 'crawl.partial_body', 'crawl.partial_body_small',
                                      'crawl.tries_exhausted', 'crawl.several_starts', 'crawl.waitretry', 'crawl.retry_connrefused', 'crawl.concurrency>1']}
 INFO = {'C18': dict(web.INFO['C18'], rule=web.INFO['C18']['rule'] + ' ; crawl level: site with 1..3 perpetually failing URLs (kind drawn) x --tries '
                     '{1,2,3,5,7,10} x 1..4 start URLs x --max-redirect x --retry-connrefused x --waitretry x concurrency; visits are identified by the item try count '
@@ -48,7 +48,7 @@ def run(tape, prop, tier):
         bad = []
         nb = tape.between(1, 3, 'nbad')
         for i in range(nb):
-            kind = tape.choice(('perpetual_5xx', 'reset', 'stall', 'redirect_loop', 'refused'), 'bad.kind')
+            kind = tape.choice(('perpetual_5xx', 'reset', 'stall', 'redirect_loop', 'refused', 'partial_body', 'partial_body_small'), 'bad.kind')
             if kind == 'refused':
                 o = site.add_origin('http', 'site.test', 8090 + i, ip=main.ip)
                 res = site.add(o, '/down%d.html' % i, 'page')
@@ -102,6 +102,11 @@ def run(tape, prop, tier):
                         conn.reset()
                     elif kind == 'stall':
                         pass
+                    elif kind in ('partial_body', 'partial_body_small'):
+                        # a good header, then the connection drops inside the body - every time
+                        total, part = (50000, 20000) if kind == 'partial_body' else (300, 100)
+                        conn.send(b'HTTP/1.1 200 OK\r\nContent-Type: text/html\r\nContent-Length: %d\r\n\r\n' % total + b'x' * part)
+                        conn.reset()
                     elif kind == 'redirect_loop':
                         n = loop_state.get(res.url, 0)
                         loop_state[res.url] = n + 1
@@ -159,6 +164,16 @@ def run(tape, prop, tier):
             if rec is None:
                 continue
             per_item.setdefault(canon(rec['url']), {}).setdefault(rec['try_count'], []).append(e)
+        # visits counted independently of the recorded try count: one visit = one run of the item through the pipeline
+        sessions = {}
+        for e in server.log:
+            rec = e['rec']
+            if rec is not None and rec.get('item_run') is not None and e['target'] != '/robots.txt':
+                sessions.setdefault(canon(rec['url']), set()).add(rec['item_run'])
+        for u, ss in sessions.items():
+            if len(ss) > tries:
+                r.violate(P, 'tries-exceeded', 'item-runs>tries', '%s was visited in %d separate runs of its item with --tries %d (recorded try counts %r)'
+                          % (u, len(ss), tries, sorted(per_item.get(u, {}))))
         for u, visits in per_item.items():
             if len(visits) > tries:
                 r.violate(P, 'tries-exceeded', 'visits>tries', '%s was visited %d times with --tries %d (try counts seen %r)' % (u, len(visits), tries, sorted(visits)))
